@@ -1,4 +1,275 @@
 import PgsVerif.Model.Persist
+/-!
+# C12 — custom files land exactly where and how requested, never clobbering silently
+
+`writeFile` over the finite-map file system; `specFile` is the declarative per-path rule
+(first writer wins unless the artifact overwrites; the creator's permission bits; post-processed
+content).  For **all** initial file systems, artifact lists and processor stacks on which the run
+does not fail and no artifact path is a directory at the moment it is written (`noDirClash`:
+file/directory conflicts are fail-stop on a real file system, C14's territory).
+-/
 namespace Pgs.Persist
-theorem placeholder_C12 : True := trivial
+open Pgs
+
+/-- no custom artifact addresses a path that is a directory at that moment -/
+def noDirClash (procs : List Proc) : FS → List Art → Bool
+  | _, [] => true
+  | fs, a :: as =>
+    match a with
+    | .custom name body perms ow tpl =>
+      match render body tpl with
+      | .error _ => true
+      | .ok text =>
+        match postProcess procs a.kind text with
+        | .error _ => true
+        | .ok c => !((fs.mkdirAll (FilePath.dir name)).isDir name) && noDirClash procs (writeFile fs name c ow perms) as
+    | _ => noDirClash procs fs as
+
+theorem file?_mkdirAll (fs : FS) (d p : Bytes) : (fs.mkdirAll d).file? p = fs.file? p := rfl
+
+theorem find?_map_path (l : List FileEnt) (n : Bytes) (g : FileEnt → FileEnt) (hg : ∀ e, (g e).path = e.path) :
+    (l.map g).find? (·.path == n) = (l.find? (·.path == n)).map g := by
+  induction l with
+  | nil => rfl
+  | cons e l ih =>
+    simp only [List.map_cons, List.find?_cons, hg]
+    split <;> simp [ih]
+
+/-- what a path holds after `write` -/
+theorem file?_write (fs : FS) (q c : Bytes) (perms : Nat) (p : Bytes) :
+    (fs.write q c perms).file? p =
+      if norm p = norm q then
+        (match fs.file? q with
+         | some e => some { e with content := c }
+         | none => some ⟨norm q, c, perms⟩)
+      else fs.file? p := by
+  unfold FS.write FS.file?
+  by_cases hex : (fs.files.find? (·.path == norm q)).isSome = true
+  · simp only [hex, if_true]
+    rw [find?_map_path _ _ _ (by intro e; split <;> rfl)]
+    by_cases hpq : norm p = norm q
+    · simp only [hpq, if_true]
+      cases hf : fs.files.find? (·.path == norm q) with
+      | none => simp [hf] at hex
+      | some e =>
+        have := List.find?_some hf
+        simp at this
+        simp [this]
+    · simp only [hpq, if_false]
+      cases hf : fs.files.find? (·.path == norm p) with
+      | none => rfl
+      | some e =>
+        have := List.find?_some hf
+        simp at this
+        have hne : ¬ e.path = norm q := by rw [this]; exact hpq
+        simp [hne]
+  · have hnone : fs.files.find? (·.path == norm q) = none := by
+      cases hf : fs.files.find? (·.path == norm q) with
+      | none => rfl
+      | some e => simp [hf] at hex
+    simp only [hex, Bool.false_eq_true, if_false, List.find?_append, hnone]
+    by_cases hpq : norm p = norm q
+    · simp [hpq, hnone]
+    · have : ¬ norm q = norm p := fun e => hpq e.symm
+      simp [hpq, this]
+
+/-- what a path holds after `writeFile`, when the artifact's path is not a directory -/
+theorem file?_writeFile (fs : FS) (name c : Bytes) (ow : Bool) (perms : Nat) (p : Bytes)
+    (hd : (fs.mkdirAll (FilePath.dir name)).isDir name = false) :
+    (writeFile fs name c ow perms).file? p =
+      if norm p = norm name then
+        (match fs.file? name with
+         | some e => if ow then some { e with content := c } else some e
+         | none => some ⟨norm name, c, perms⟩)
+      else fs.file? p := by
+  unfold writeFile
+  have hex : (fs.mkdirAll (FilePath.dir name)).exists name = (fs.file? name).isSome := by
+    simp [FS.exists, hd, file?_mkdirAll]
+  simp only [hex]
+  cases hf : fs.file? name with
+  | none =>
+    simp only [Option.isSome_none, Bool.false_eq_true, if_false]
+    rw [file?_write, file?_mkdirAll, file?_mkdirAll, hf]
+  | some e =>
+    simp only [Option.isSome_some, if_true]
+    cases ow with
+    | true => simp only [if_true]; rw [file?_write, file?_mkdirAll, file?_mkdirAll, hf]
+    | false =>
+      simp only [Bool.false_eq_true, if_false, file?_mkdirAll]
+      by_cases hpq : norm p = norm name
+      · simp only [hpq, if_true]
+        have : fs.file? p = fs.file? name := by simp [FS.file?, hpq]
+        rw [this, hf]
+      · simp [hpq]
+
+/-- **C12 (file system)**: after a run that does not fail, every path holds exactly what the
+    declarative rule says: pre-existing or earlier-written files are untouched unless an artifact
+    overwrites (then only the content is replaced, the mode stays), a newly created file has the
+    requested permission bits and the post-processed content. -/
+theorem C12_files (procs : List Proc) (arts : List Art) : ∀ (st st' : State),
+    persistFrom procs st arts = .ok st' → noDirClash procs st.fs arts = true →
+    ∀ p, st'.fs.file? p = specFile procs (st.fs.file? p) (norm p) arts := by
+  induction arts with
+  | nil => intro st st' h _ p; simp [persistFrom] at h; subst h; rfl
+  | cons a as ih =>
+    intro st st' h hnd p
+    simp only [persistFrom] at h
+    cases hs : step procs st a with
+    | error c => simp [hs] at h
+    | ok st1 =>
+      simp only [hs] at h
+      cases a with
+      | custom name body perms ow tpl =>
+        cases hr : render body tpl with
+        | error c => simp [step, bind, Except.bind, hr] at hs
+        | ok text =>
+          cases hp : postProcess procs (Art.custom name body perms ow tpl).kind text with
+          | error c => simp [step, bind, Except.bind, hr, hp] at hs
+          | ok c =>
+            have hst1 : st1 = { st with fs := writeFile st.fs name c ow perms } := by
+              simp [step, bind, Except.bind, hr, hp, pure, Except.pure] at hs
+              exact hs.symm
+            simp only [noDirClash, hr, hp, Bool.and_eq_true, Bool.not_eq_true'] at hnd
+            obtain ⟨hd, hnd'⟩ := hnd
+            have ih' := ih st1 st' h (by rw [hst1]; exact hnd') p
+            rw [ih', hst1]
+            simp only [specFile, hr, hp]
+            rw [file?_writeFile st.fs name c ow perms p hd]
+            by_cases hpq : norm name = norm p
+            · have hpq' : norm p = norm name := hpq.symm
+              have hsame : st.fs.file? p = st.fs.file? name := by simp only [FS.file?, hpq']
+              rw [if_pos hpq', if_pos hpq, hsame]
+              cases hf : st.fs.file? name with
+              | none => simp only [hp]; rw [hpq]
+              | some e => cases ow <;> simp only [hp, if_true, Bool.false_eq_true, if_false]
+            · have hpq' : ¬ norm p = norm name := fun e => hpq e.symm
+              rw [if_neg hpq', if_neg hpq]
+      | file n b o t =>
+        have hfs : st1.fs = st.fs := by
+          simp only [step, bind, Except.bind] at hs
+          repeat' split at hs
+          all_goals first | (cases hs; done) | (simp [pure, Except.pure] at hs; rw [← hs])
+        have := ih st1 st' h (by rw [hfs]; simpa [noDirClash] using hnd) p
+        rw [this, hfs]; simp [specFile]
+      | app n b t =>
+        have hfs : st1.fs = st.fs := by
+          simp only [step, bind, Except.bind] at hs
+          repeat' split at hs
+          all_goals first | (cases hs; done) | (simp [pure, Except.pure] at hs; rw [← hs])
+        have := ih st1 st' h (by rw [hfs]; simpa [noDirClash] using hnd) p
+        rw [this, hfs]; simp [specFile]
+      | inj n i b t =>
+        have hfs : st1.fs = st.fs := by
+          simp only [step, bind, Except.bind] at hs
+          repeat' split at hs
+          all_goals first | (cases hs; done) | (simp [pure, Except.pure] at hs; rw [← hs])
+        have := ih st1 st' h (by rw [hfs]; simpa [noDirClash] using hnd) p
+        rw [this, hfs]; simp [specFile]
+      | err msg =>
+        have hfs : st1.fs = st.fs := by simp [step, pure, Except.pure] at hs; rw [← hs]
+        have := ih st1 st' h (by rw [hfs]; simpa [noDirClash] using hnd) p
+        rw [this, hfs]; simp [specFile]
+      | unknown => simp [step] at hs
+
+/-- the response does not depend on custom artifacts: a non-failing run produces the response of
+    the same run with the custom artifacts removed -/
+theorem C12_response (procs : List Proc) (arts : List Art) : ∀ (st st' : State),
+    persistFrom procs st arts = .ok st' →
+    ∃ st'', persistFrom procs st (arts.filter fun a => match a with | .custom .. => false | _ => true) = .ok st'' ∧
+      st''.resp = st'.resp := by
+  induction arts with
+  | nil => intro st st' h; exact ⟨st, rfl, by simp [persistFrom] at h; rw [h]⟩
+  | cons a as ih =>
+    intro st st' h
+    simp only [persistFrom] at h
+    cases hs : step procs st a with
+    | error c => simp [hs] at h
+    | ok st1 =>
+      simp only [hs] at h
+      cases a with
+      | custom name body perms ow tpl =>
+        have hresp : st1.resp = st.resp := by
+          simp only [step, bind, Except.bind] at hs
+          repeat' split at hs
+          all_goals first | (cases hs; done) | (simp [pure, Except.pure] at hs; rw [← hs])
+        -- the remaining run only reads the response part of the state
+        obtain ⟨st2, h2, h3⟩ := ih st1 st' h
+        have key : ∀ (l : List Art) (s1 s2 r : State), s1.resp = s2.resp → (∀ a ∈ l, ∀ n b p o t, a ≠ Art.custom n b p o t) →
+            persistFrom procs s1 l = .ok r → ∃ r', persistFrom procs s2 l = .ok r' ∧ r'.resp = r.resp := by
+          intro l
+          induction l with
+          | nil => intro s1 s2 r he _ hr; simp [persistFrom] at hr; exact ⟨s2, rfl, by rw [← hr, he]⟩
+          | cons x l ihl =>
+            intro s1 s2 r he hnc hr
+            simp only [persistFrom] at hr
+            cases hx : step procs s1 x with
+            | error c => simp [hx] at hr
+            | ok t1 =>
+              simp only [hx] at hr
+              have hstep : ∃ t2, step procs s2 x = .ok t2 ∧ t2.resp = t1.resp := by
+                cases x with
+                | custom n b p o t => exact absurd rfl (hnc _ (List.mem_cons_self ..) n b p o t)
+                | unknown => simp [step] at hx
+                | err msg =>
+                  simp [step, pure, Except.pure] at hx ⊢
+                  rw [← hx, he]
+                | file n b o t =>
+                  simp only [step, bind, Except.bind, he] at hx ⊢
+                  repeat' split at hx
+                  all_goals first | (cases hx; done) | skip
+                  all_goals simp_all [pure, Except.pure]
+                  all_goals (rw [← hx])
+                | app n b t =>
+                  simp only [step, bind, Except.bind, he] at hx ⊢
+                  repeat' split at hx
+                  all_goals first | (cases hx; done) | skip
+                  all_goals simp_all [pure, Except.pure]
+                  all_goals (rw [← hx])
+                | inj n i b t =>
+                  simp only [step, bind, Except.bind, he] at hx ⊢
+                  repeat' split at hx
+                  all_goals first | (cases hx; done) | skip
+                  all_goals simp_all [pure, Except.pure]
+                  all_goals (rw [← hx])
+              obtain ⟨t2, ht2, hresp2⟩ := hstep
+              obtain ⟨r', hr', hrr⟩ := ihl t1 t2 r hresp2.symm (fun a ha => hnc a (List.mem_cons_of_mem _ ha)) hr
+              exact ⟨r', by simp [persistFrom, ht2, hr'], hrr⟩
+        have hnc : ∀ a ∈ as.filter (fun a => match a with | .custom .. => false | _ => true), ∀ n b p o t, a ≠ Art.custom n b p o t := by
+          intro a ha n b p o t e
+          subst e
+          simp at ha
+        obtain ⟨r', hr', hrr⟩ := key _ st1 st st2 hresp hnc h2
+        refine ⟨r', ?_, by rw [hrr, h3]⟩
+        simpa using hr'
+      | file n b o t => obtain ⟨st2, h2, h3⟩ := ih st1 st' h; exact ⟨st2, by simp [persistFrom, hs, h2], h3⟩
+      | app n b t => obtain ⟨st2, h2, h3⟩ := ih st1 st' h; exact ⟨st2, by simp [persistFrom, hs, h2], h3⟩
+      | inj n i b t => obtain ⟨st2, h2, h3⟩ := ih st1 st' h; exact ⟨st2, by simp [persistFrom, hs, h2], h3⟩
+      | err msg => obtain ⟨st2, h2, h3⟩ := ih st1 st' h; exact ⟨st2, by simp [persistFrom, hs, h2], h3⟩
+      | unknown => simp [step] at hs
+
+theorem write_dirs (fs : FS) (p c : Bytes) (perms : Nat) : (fs.write p c perms).dirs = fs.dirs := by
+  unfold FS.write; simp only; split <;> rfl
+
+/-- parents of a written file exist afterwards -/
+theorem C12_parent_created (fs : FS) (name c : Bytes) (ow : Bool) (perms : Nat) :
+    (writeFile fs name c ow perms).isDir (FilePath.dir name) = true := by
+  have hm : (fs.mkdirAll (FilePath.dir name)).isDir (FilePath.dir name) = true := by
+    unfold FS.mkdirAll FS.isDir
+    simp only [List.contains_eq_mem, decide_eq_true_eq, List.mem_append]
+    by_cases hin : norm (FilePath.dir name) ∈ fs.dirs
+    · exact Or.inl hin
+    · right
+      rw [List.mem_eraseDups]
+      simp [hin]
+  unfold writeFile
+  simp only
+  split
+  · split
+    · simpa [FS.isDir, write_dirs] using hm
+    · exact hm
+  · simpa [FS.isDir, write_dirs] using hm
+
+/-! ### non-vacuity -/
+example : noDirClash [] ⟨[], []⟩ [.custom [100,47,97] ⟨[49], false⟩ 420 false false, .custom [100,47,97] ⟨[50], false⟩ 384 true false] = true := by decide
+
 end Pgs.Persist
